@@ -62,6 +62,7 @@ def handlers : List (String × (Json → Except String Json)) := [
   ("C19.signs", Qv.Drv.C19.signsJ),
   ("C19.combine", Qv.Drv.C19.combineJ),
   ("C10.step", Qv.Drv.C10.stepJ),
+  ("C10.krylov_decision", Qv.Drv.C10.krylovDecisionJ),
   ("C01.csr_of_dense", Qv.Drv.C01.csrOfDenseJ),
   ("C01.dense_of_csr", Qv.Drv.C01.denseOfCsrJ),
   ("C01.add_csr", Qv.Drv.C01.addCsrJ),
